@@ -40,8 +40,10 @@ fn dispatch(name: &str, s: &mut src::ReplaySrc) -> bool {
         "fields_select" => fields::fields_select_body(s),
         "fields_prev_in_result" => fields::fields_prev_in_result_body(s),
         "member_consistency" => fields::member_consistency_body(s),
+        "endpoint_reuse_f32" => intersect::endpoint_reuse_body(s),
         "intersection_in_boxes_f64" => intersect::intersection_in_boxes_body::<f64, _>(s),
         "intersection_in_boxes_f32" => intersect::intersection_in_boxes_body::<f32, _>(s),
+        "possible_intersection_overlap_grid_f64" => divide::possible_intersection_overlap_grid_body::<f64, _>(s),
         "possible_intersection_none_f64" => divide::possible_intersection_contract_body::<f64, _>(s, 0),
         "possible_intersection_point_f64" => divide::possible_intersection_contract_body::<f64, _>(s, 1),
         "possible_intersection_overlap_f64" => divide::possible_intersection_contract_body::<f64, _>(s, 2),
@@ -50,8 +52,10 @@ fn dispatch(name: &str, s: &mut src::ReplaySrc) -> bool {
         "divide_segment_n2_instance" => divide::divide_segment_n2_instance_body(s),
         "divide_segment_contract_f64" => divide::divide_segment_contract_body::<f64, _>(s),
         "divide_segment_contract_f32" => divide::divide_segment_contract_body::<f32, _>(s),
-        "trivial_result_f64" => queue::trivial_result_body::<f64, _>(s),
-        "trivial_result_f32" => queue::trivial_result_body::<f32, _>(s),
+        "trivial_ysep_difference_f64" => queue::trivial_result_body::<f64, _>(s, 3, 1),
+        "trivial_xsep_difference_f64" => queue::trivial_result_body::<f64, _>(s, 2, 1),
+        "trivial_xsep_union_f64" => queue::trivial_result_body::<f64, _>(s, 2, 2),
+        "trivial_ysep_union_f64" => queue::trivial_result_body::<f64, _>(s, 3, 2),
         "contour_parent" => contour::contour_parent_body(s),
         "cmp_matches_spec_f64" => order::cmp_matches_spec_body::<f64, _>(s),
         "cmp_matches_spec_f32" => order::cmp_matches_spec_body::<f32, _>(s),
@@ -60,4 +64,78 @@ fn dispatch(name: &str, s: &mut src::ReplaySrc) -> bool {
         _ => return false,
     }
     true
+}
+
+/// Bounded twin of the Verus `segint` unit (native): every pair of non-degenerate segments with integer coordinates in
+/// 0..4, the real `intersection` in f64 against exact rational arithmetic (classification exact, location within 1e-12).
+/// Only used to look for a concrete failing input after a Verus obligation failed; never counted as proof.
+#[cfg(verif_replay)]
+#[test]
+fn twin_segint() {
+    use super::segment_intersection::{intersection, LineIntersection};
+    use geo_types::Coord;
+    const N: i64 = 4;
+    let c = |x: i64, y: i64| Coord { x: x as f64, y: y as f64 };
+    let close = |p: Coord<f64>, nx: i64, ny: i64, d: i64| (p.x - nx as f64 / d as f64).abs() < 1e-12 && (p.y - ny as f64 / d as f64).abs() < 1e-12;
+    let mut count = 0u64;
+    let report = |msg: String| {
+        println!("TWIN-FAIL {}", msg);
+        if let Ok(p) = std::env::var("VERIF_TWIN_OUT") {
+            let _ = std::fs::write(p, format!("bounded twin of the Verus segint unit (real `intersection`, f64, vs exact rational arithmetic)\n{}\n", msg));
+        }
+    };
+    for code in 0..(N as u64).pow(8) {
+        let mut k = code;
+        let mut v = [0i64; 8];
+        for i in 0..8 {
+            v[i] = (k % N as u64) as i64;
+            k /= N as u64;
+        }
+        let (a1, a2, b1, b2) = ((v[0], v[1]), (v[2], v[3]), (v[4], v[5]), (v[6], v[7]));
+        if a1 == a2 || b1 == b2 {
+            continue;
+        }
+        count += 1;
+        let (ux, uy, wx, wy) = (a2.0 - a1.0, a2.1 - a1.1, b2.0 - b1.0, b2.1 - b1.1);
+        let (ex, ey) = (b1.0 - a1.0, b1.1 - a1.1);
+        let d = ux * wy - uy * wx;
+        // exact answer: 0 none, 1 point (nx/den, ny/den), 2 overlap (two points over den)
+        let mut kind = 0;
+        let (mut p1, mut p2, mut den) = ((0i64, 0i64), (0i64, 0i64), 1i64);
+        if d != 0 {
+            let (sn, tn) = (ex * wy - ey * wx, ex * uy - ey * ux);
+            let (sn, tn, dd) = if d < 0 { (-sn, -tn, -d) } else { (sn, tn, d) };
+            if 0 <= sn && sn <= dd && 0 <= tn && tn <= dd {
+                kind = 1;
+                den = dd;
+                p1 = (a1.0 * dd + sn * ux, a1.1 * dd + sn * uy);
+            }
+        } else if ex * uy - ey * ux == 0 {
+            let l = ux * ux + uy * uy;
+            let sa = ux * ex + uy * ey;
+            let sb = sa + ux * wx + uy * wy;
+            let (lo, hi) = (sa.min(sb).max(0), sa.max(sb).min(l));
+            if lo == hi {
+                kind = 1;
+                den = l;
+                p1 = (a1.0 * l + lo * ux, a1.1 * l + lo * uy);
+            } else if lo < hi {
+                kind = 2;
+                den = l;
+                p1 = (a1.0 * l + lo * ux, a1.1 * l + lo * uy);
+                p2 = (a1.0 * l + hi * ux, a1.1 * l + hi * uy);
+            }
+        }
+        let r = intersection(c(a1.0, a1.1), c(a2.0, a2.1), c(b1.0, b1.1), c(b2.0, b2.1));
+        let ok = match r {
+            LineIntersection::None => kind == 0,
+            LineIntersection::Point(p) => kind == 1 && close(p, p1.0, p1.1, den),
+            LineIntersection::Overlap(p, q) => kind == 2 && close(p, p1.0, p1.1, den) && close(q, p2.0, p2.1, den),
+        };
+        if !ok {
+            report(format!("segments {:?}-{:?} and {:?}-{:?}: intersection() = {:?}, exact answer kind {} at {:?}/{} {:?}/{}", a1, a2, b1, b2, r, kind, p1, den, p2, den));
+            return;
+        }
+    }
+    println!("TWIN-PASS segint: {} segment pairs on the {}x{} grid", count, N, N);
 }
